@@ -66,6 +66,8 @@ Judge(t, pl, V) ==
   IF SeqSet(mv) # V THEN "REJECT MeshVertexSet" ELSE
   IF \E k \in DOMAIN mlab : mlab[k] = {} THEN "REJECT MeshOutward" ELSE
   IF ~ClosedManifold(t.mesh.faces, Rep(mv)) THEN "REJECT MeshClosed" ELSE
+  \* the mesh object handed to the caller is closed as it stands: one vertex per corner, so that edges pair up by index
+  IF Cardinality(SeqSet(mv)) # Len(mv) THEN "REJECT MeshDuplicateVertices" ELSE
   IF ~EncMeet(vol, MeshVol6S(pl, em, t.tris, t.trifacet)) THEN "REJECT Volume" ELSE
   IF ~EncMeet(vol, MeshVol6S(pl, mv, t.mesh.faces, mlabel)) THEN "REJECT MeshVolume" ELSE
   IF ~FloatVolOK(t.mesh.vol6s, vol) THEN "REJECT FloatVolume" ELSE
@@ -74,7 +76,22 @@ Judge(t, pl, V) ==
   IF SeqSet(t.scale.verts) # sv THEN "REJECT Scaling" ELSE
   "ACCEPT"
 
+(* built from a list of Miller planes and a space group: the facets the object holds (t.facets, read back from it in its own
+   order) must be the expansion of that list; the expansion itself must lie in the exact input domain *)
+GmfExpected(t) == ExpandPlanes(t.gmf.records, t.gmf.rots)
+GmfDomain(t) ==
+  /\ \A i \in DOMAIN t.gmf.records : Len(t.gmf.records[i]) = 4 /\ t.gmf.records[i][4] \in 1..MaxP
+                                      /\ \A c \in 1..3 : AbsI(t.gmf.records[i][c]) <= MaxW
+  /\ \A e \in GmfExpected(t) : \E w \in 1..MaxW : e[1][1] * e[1][1] + e[1][2] * e[1][2] + e[1][3] * e[1][3] = w * w
+GmfVerdict(t) ==
+  IF t.kind # "gmf" THEN "" ELSE
+  IF ~GmfDomain(t) THEN "OOD gmf-input" ELSE
+  IF t.exc # "" THEN "REJECT Raised" ELSE
+  IF {<<<<f[1], f[2], f[3]>>, f[5]>> : f \in SeqSet(t.facets)} # GmfExpected(t) \/ Len(t.facets) # Cardinality(GmfExpected(t))
+     THEN "REJECT GmfFacets" ELSE ""
+
 Verdict(t) ==
+  IF GmfVerdict(t) # "" THEN GmfVerdict(t) ELSE
   (* the second construction shrinks the shape by at most 3, keeping its vertices apart on the scale *)
   (* of the code's merge tolerances (see Separated)                                                  *)
   IF ~(WellFormed(t.facets) /\ t.Q \in 1..1000 /\ t.scale.sn \in (1..8) \cup {1000, 2500, 10000} /\ t.scale.sd \in 1..8
